@@ -224,6 +224,15 @@ OK_B = {"status": 200, "ctype": "json", "body": "resp"}
 CT = {"json": "application/json", "sse": "text/event-stream", "text": "text/plain; charset=utf-8"}
 
 
+# how the last event of an SSE body ends (what follows its last "data:" line)
+SSE_ENDINGS = {
+    "blank-line": "\n\n", "line-end-only": "\n", "nothing": "", "crlf-only": "\r\n", "crlf-blank-line": "\r\n\r\n",
+    "blank-line+trailing-comment": "\n\n: bye", "line-end+trailing-comment": "\n: bye",
+    "blank-line+partial-field": "\n\ndat", "blank-line+event-field-only": "\n\nevent: ping",
+    "blank-line+unterminated-data-of-next-event": "\n\ndata: {\"jsonrpc\"",
+}
+
+
 def render(b: Dict[str, Any], rid: Any) -> Tuple[bytes, Optional[str]]:
     body = b["body"]
     ctype = CT.get(b["ctype"])
@@ -234,7 +243,15 @@ def render(b: Dict[str, Any], rid: Any) -> Tuple[bytes, Optional[str]]:
             return b'event: message\ndata: {"jsonrpc":"2.0","id":\n\n', ctype
         if body == "nonjson":
             return b"event: message\ndata: hello there\n\n", ctype
+        if body == "comment-only":
+            return b": nothing to say\n\n: bye\n\n", ctype
         msgs = body_messages(body, rid)
+        if "ending" in b:
+            # canonical events, the LAST one ends in the chosen way (typed: with an "event: message" line)
+            head = "event: message\n" if b.get("typed", True) else ""
+            texts = [json.dumps(m, ensure_ascii=False) for m in msgs]
+            out = "".join(f"{head}data: {t}\n\n" for t in texts[:-1]) + f"{head}data: {texts[-1]}" + SSE_ENDINGS[b["ending"]]
+            return out.encode("utf-8"), ctype
         return sse_encode(msgs, b.get("enc", "canonical"), body == "batch").encode("utf-8"), ctype
     if body.startswith("errobj:"):
         _, form, shape = body.split(":")
@@ -342,7 +359,8 @@ def run_one(ctl: explorer.Ctl, cfg: Dict[str, Any]) -> Dict[str, Any]:
     async def main():
         with patched_httpx(handler) as px:
             info["px"] = px
-            params = StreamableHTTPParameters(url=URL, timeout=5.0)
+            kw = {"max_concurrent_requests": cfg["max_concurrent"]} if cfg.get("max_concurrent") else {}
+            params = StreamableHTTPParameters(url=URL, timeout=5.0, **kw)
             async with http_client(params) as (read, write):
                 for n, s in enumerate(steps):
                     if rids[n] is None:
@@ -428,8 +446,12 @@ def judge(steps, rids, got_per_step, posts):
         ex = expected(b, rid)
         tag = _tag(b)
 
+        prev_end = {}
+        if n and "ending" in beh(steps[n - 1]):
+            prev_end = {"previous_body": _tag(beh(steps[n - 1]))["encoding"]}
+
         def bad(cls, msg, **extra):
-            viol.append({"sig": {"class": cls, **tag, "request": "notification" if rid is None else
+            viol.append({"sig": {"class": cls, **tag, **prev_end, "request": "notification" if rid is None else
                                  ("id-0" if rid == 0 and n == 0 else "with-id"), **extra},
                          "msg": f"step {n} of {len(steps)} behaviour={b} request id={rid!r}: {msg}; delivered={got}"})
 
@@ -483,7 +505,10 @@ def _tag(b: Dict[str, Any]) -> Dict[str, Any]:
         return {"body": "exception:" + b["exc"], "ctype": None, "encoding": None}
     status = b["status"]
     sc = "2xx" if status < 300 else ("3xx" if status < 400 else "error-status")
-    return {"body": b["body"], "ctype": b["ctype"], "encoding": b.get("enc")}
+    enc = b.get("enc")
+    if "ending" in b:
+        enc = f"last-event-ends:{b['ending']}/{'typed' if b.get('typed', True) else 'untyped'}"
+    return {"body": b["body"], "ctype": b["ctype"], "encoding": enc}
 
 
 # ---------------------------------------------------------------------------
@@ -717,6 +742,126 @@ def run_two_connections(ctl: explorer.Ctl, cfg: Dict[str, Any]) -> Dict[str, Any
     return {"outcome": "/".join(str(x) for x in heads), "order": order, "violations": viol}
 
 
+# ---------------------------------------------------------------------------
+# two live connections whose exchanges OVERLAP: A's POST is still in flight while B completes a round trip
+# ---------------------------------------------------------------------------
+RUN_OVL = "vf.checks.c11:run_two_overlapping"
+OVL_A = [  # answers without any message: the transport must synthesise A's terminal message itself
+    {"status": 200, "ctype": "sse", "body": "empty"},
+    {"status": 200, "ctype": "sse", "body": "comment-only"},
+    {"status": 200, "ctype": "json", "body": "empty"},
+    {"status": 202, "ctype": "text", "body": "nonjson"},
+    {"status": 202, "ctype": "absent", "body": "empty"},
+    {"status": 200, "ctype": "sse", "body": "nonjson"},
+    {"status": 204, "ctype": "absent", "body": "empty"},
+    {"status": 500, "ctype": "text", "body": "nonjson"},
+    {"exc": "connect"},
+    {"status": 200, "ctype": "json", "body": "resp"},          # control: a real answer
+]
+OVL_B = [
+    {"status": 200, "ctype": "json", "body": "resp"},
+    {"status": 200, "ctype": "sse", "body": "resp", "enc": "canonical"},
+    {"status": 200, "ctype": "sse", "body": "notifs+resp", "enc": "canonical"},
+    {"status": 200, "ctype": "sse", "body": "empty"},          # B message-less as well
+]
+OVL_HOLD = ["A-held-while-B-completes", "both-held", "nobody-held"]
+
+
+def run_two_overlapping(ctl: explorer.Ctl, cfg: Dict[str, Any]) -> Dict[str, Any]:
+    from chuk_mcp.protocol.messages.json_rpc_message import JSONRPCRequest
+    from chuk_mcp.transports.http.http_client import http_client
+    from chuk_mcp.transports.http.parameters import StreamableHTTPParameters
+
+    beh = {"A": OVL_A[cfg["a"]], "B": OVL_B[cfg["b"]]}
+    hold = OVL_HOLD[cfg["hold"]]
+    held = {"A": hold != "nobody-held", "B": hold == "both-held"}
+    rids = {"A": "A0" if cfg.get("ids", "str") == "str" else 70, "B": "B0" if cfg.get("ids", "str") == "str" else 71}
+    loop = new_loop(horizon=600)
+    q = seams.Quiescence(loop)
+    gates: Dict[str, Any] = {}
+    posts: Dict[str, Any] = {}
+    got: Dict[str, List[Any]] = {"A": [], "B": []}
+    order: List[str] = []
+
+    async def handler(rec):
+        sent = rec.json()
+        rid = sent.get("id") if isinstance(sent, dict) else None
+        c = "A" if rid == rids["A"] else "B" if rid == rids["B"] else None
+        if c is None:
+            return httpx.Response(500, content=b"unknown request")
+        posts[c] = (sent, rec.headers)
+        if held[c]:
+            gates[c] = loop.create_future()
+            await gates[c]
+        b = beh[c]
+        if "exc" in b:
+            return httpx.ConnectError("connection refused")
+        raw, ctype = render(b, rids[c])
+        if b["status"] == 204:
+            raw = b""
+        return httpx.Response(b["status"], headers={"content-type": ctype} if ctype else {}, content=raw)
+
+    def drain(streams):
+        for c in "AB":
+            try:
+                while True:
+                    got[c].append(dump_msg(streams[c][0].receive_nowait()))
+            except (anyio.WouldBlock, anyio.EndOfStream):
+                pass
+
+    async def main():
+        with patched_httpx(handler):
+            async with http_client(StreamableHTTPParameters(url=URL, timeout=5.0)) as sa:
+                async with http_client(StreamableHTTPParameters(url=URL, timeout=5.0)) as sb:
+                    streams = {"A": sa, "B": sb}
+                    for c in "AB":
+                        order.append(f"send{c}")
+                        await streams[c][1].send(JSONRPCRequest(id=rids[c], method="tools/list", params={"from": c}))
+                        await q.settle()
+                        drain(streams)
+                    pending = [c for c in "AB" if held[c]]
+                    while pending:
+                        c = pending.pop(ctl.choose(len(pending), "release-whose-answer") if len(pending) > 1 else 0)
+                        order.append(f"answer{c}")
+                        if c not in gates:
+                            raise core.HarnessError(f"overlap: connection {c} never POSTed its request")
+                        gates[c].set_result(None)
+                        await q.settle()
+                        drain(streams)
+                    await q.settle()
+                    drain(streams)
+
+    status, val = loop.run_main(main())
+    errors = loop.collect_errors()
+    loop.abandon()
+    if status != "ok":
+        if isinstance(val, core.HarnessError):
+            raise val
+        return {"outcome": status, "violations": [{"sig": {"class": "did-not-finish", "part": "overlap", "hold": hold},
+                                                   "msg": f"cfg={cfg} order={order}: {status} {core.clean_repr(val)}"}]}
+    viol: List[dict] = []
+    summary = []
+    for c in "AB":
+        other = "AB".replace(c, "")
+        # what this connection reads ALONE (reference oracle of the single-connection parts)
+        one = [{"b": beh[c], "req": "id-a", "session": None}]
+        sm, vs = judge(one, [rids[c]], [got[c]], [posts[c]] if c in posts else [])
+        summary.append(f"{c}:{sm[0]}")
+        for v in vs:
+            v["sig"] = {**v["sig"], "part": "overlap", "connection": c, "hold": hold,
+                        "other_connection_answer": _tag(beh[other])["body"] + "/" + str(_tag(beh[other])["ctype"])}
+            v["msg"] = f"two live connections, {hold}, order {order}, A answers {beh['A']}, B answers {beh['B']}; connection {c}: " + v["msg"]
+            viol.append(v)
+    if errors:
+        viol.append({"sig": {"class": "loop-error", "part": "overlap"}, "msg": f"{errors[:2]}"})
+    return {"outcome": "/".join(summary), "order": order, "violations": viol}
+
+
+def overlapping_configs() -> List[Dict[str, Any]]:
+    return [{"a": a, "b": b, "hold": h, "ids": i} for a in range(len(OVL_A)) for b in range(len(OVL_B))
+            for h in range(len(OVL_HOLD)) for i in ("str", "int")]
+
+
 def two_connection_configs() -> List[Dict[str, Any]]:
     return [{"mode": m, "headers": h, "init": i, "a": a, "b": b}
             for m in range(len(TWO_MODES)) for h in range(len(TWO_HEADERS)) for i in (None, "S-P0")
@@ -803,6 +948,54 @@ def configs_for(tier: str):
                 g.append({"steps": [{"b": dict(b, body=f"burst-{n}"), "req": rk, "session": None},
                                     {"b": OK_B, "req": "id-a", "session": None}]})
     parts["burst-bodies-drained-after-the-post"] = g
+    # long runs of ONE failure class (whatever a failing exchange leaks adds up), then a plain request
+    g = []
+    fails = [{"exc": e} for e in ("connect", "read-timeout", "protocol", "stall")] + \
+        [{"status": st, "ctype": "absent", "body": "empty"} for st in (400, 401, 404, 500, 503)] + \
+        [{"status": 200, "ctype": "sse", "body": "empty"}, {"status": 200, "ctype": "json", "body": "empty"},
+         {"status": 202, "ctype": "absent", "body": "empty"}, {"status": 200, "ctype": "sse", "body": "nonjson"},
+         {"status": 200, "ctype": "json", "body": "truncated"}, {"status": 204, "ctype": "absent", "body": "empty"}]
+    ks = (9, 10, 11, 12, 25) if tier == "quick" else tuple(range(1, 31))
+    mcs = (None,) if tier == "quick" else (None, 1, 2)
+    kinds = ["id-a", "id-7", "id-a", "note"]
+    for f in fails:
+        for k in ks:
+            for mc in mcs:
+                if mc is not None and k > 6 and k % 5:
+                    continue
+                for form in ("run", "alternating-with-ok"):
+                    steps = []
+                    for i in range(k):
+                        steps.append({"b": f, "req": kinds[len(steps) % 4], "session": None})
+                        if form != "run":
+                            steps.append({"b": OK_B, "req": kinds[len(steps) % 4] if kinds[len(steps) % 4] != "note" else "id-a",
+                                          "session": None})
+                    steps.append({"b": OK_B, "req": "id-a", "session": None})
+                    c = {"steps": steps}
+                    if mc is not None:
+                        c["max_concurrent"] = mc
+                    g.append(c)
+    parts["long-runs-of-one-failure"] = g
+    # consecutive SSE bodies on one connection: however the first one ENDS, the next answer is read on its own
+    g = []
+    firsts = [{"status": 200, "ctype": "sse", "body": body, "ending": e, "typed": t}
+              for e in SSE_ENDINGS for t in (True, False) for body in ("resp", "notifs+resp")]
+    resp_endings = [f for f in firsts if f["body"] == "resp"]
+    seconds = [{"status": 200, "ctype": "sse", "body": "resp", "enc": "canonical"},
+               {"status": 200, "ctype": "sse", "body": "notifs+resp", "ending": "nothing", "typed": False},
+               {"status": 200, "ctype": "sse", "body": "resp", "ending": "blank-line", "typed": False},
+               {"status": 200, "ctype": "json", "body": "resp"}, {"status": 202, "ctype": "absent", "body": "empty"}]
+    for a in firsts:
+        for b in seconds:
+            g.append({"steps": [{"b": a, "req": "id-a", "session": None}, {"b": b, "req": "id-7", "session": None}]})
+    for a in firsts:
+        for b in resp_endings:
+            for c in seconds[:2] + seconds[3:4]:
+                if tier == "quick" and a["body"] != "resp":
+                    continue
+                g.append({"steps": [{"b": a, "req": "id-a", "session": None}, {"b": b, "req": "id-7", "session": None},
+                                    {"b": c, "req": "id-a", "session": None}]})
+    parts["consecutive-sse-bodies-by-ending"] = g
     return parts
 
 
@@ -831,6 +1024,11 @@ def run(tier: str, only=None) -> core.Result:
         out = explorer.explore(RUN_TWO, tcfgs, fidelity=True)
         sched.absorb(res, "two-connections-one-parameters-object", RUN_TWO, out, tcfgs)
         sched.debug_pass(res, "two-connections-one-parameters-object", RUN_TWO, tcfgs, every=9)
+    if not only or "two-connections-overlapping-exchanges" in only:
+        ocfgs = overlapping_configs()
+        out = explorer.explore(RUN_OVL, ocfgs, fidelity=True)
+        sched.absorb(res, "two-connections-overlapping-exchanges", RUN_OVL, out, ocfgs)
+        sched.debug_pass(res, "two-connections-overlapping-exchanges", RUN_OVL, ocfgs, every=5)
     if not only or "conformance" in only:
         from . import c11_conf
 
@@ -851,7 +1049,10 @@ def run(tier: str, only=None) -> core.Result:
         "ONE StreamableHTTPParameters object (alive together with every interleaving of their requests, one after the other) "
         "and from own objects (control) x parameters.headers None / {} / two headers x parameters.session_id None / given x the "
         "server issuing a new session id on the 1st and/or 2nd request of each connection: every request carries the most recent "
-        "id issued on ITS connection, each connection reads what it reads alone, the parameters object is left as it was; "
+        "id issued on ITS connection, each connection reads what it reads alone, the parameters object is left as it was; two live connections whose exchanges "
+        "overlap - A's POST held in flight while B completes a round trip, both held and answered in either order, nobody held - "
+        "with A's answer over 8 message-less answers, an exception and a real answer, B's over JSON / SSE / notifications+response / "
+        "empty: each connection gets exactly the terminal message it gets alone; "
         "distinct = distinct observation digests"
     )
     res.assumptions = [
